@@ -42,6 +42,7 @@ Fixpoint upto (m : nat) : list nat := match m with O => [O] | S k => upto k ++ [
 
 Definition dispatch_model (name : Z) (s : sx) : sx :=
   match name with
+  | 37 => AllRun.run_jrn_real s   (* C03: journey invariant on a snapshot + the real cumulative records + arrival nodes *)
   | 36 => AllRun.run_invs s       (* every executable T2 invariant on one snapshot: L [wfx; cap; clk; ...] *)
   | 35 => CapacityRun.run_capb s   (* capacity hypotheses of engine_capacity on a snapshot *)
   | 34 => ConserveRun.run_wfx s   (* does a snapshot satisfy the conservation invariant WFx []? *)
